@@ -8,12 +8,12 @@ variable {c : PCtx} {A B T q : String} {fs : List FieldSpec}
 /-- the realised insertion point of the `j`-th element under `q`, with id `i`: `q:<j>#<i>` -/
 def pointL (q : String) (j : Nat) (i : String) : String := Point.encodeList q j (some i)
 
-theorem extract_pointL (q i : String) (j : Nat) (hq1 : '#' ∉ q.toList) (hq2 : ':' ∉ q.toList) (hi : '#' ∉ i.toList) :
+theorem extract_pointL (q i : String) (j : Nat) (hq1 : '#' ∉ q.toList) (hq2 : ':' ∉ q.toList) :
     Point.extract (pointL q j i) = .ok ⟨q, some j, i⟩ := by
   unfold Point.extract pointL Point.encodeList
   rw [String.toList_ofList]
   simp only [Option.map_some]
-  rw [C01_point_roundtrip_list q.toList i.toList j hq1 hq2 hi]
+  rw [C01_point_roundtrip_list q.toList i.toList j hq1 hq2]
   simp [String.ofList_toList]
 
 theorem idxOf_hash (pre suf : List Char) (h : '#' ∉ pre) : (pre ++ '#' :: suf).idxOf? '#' = some pre.length := by
@@ -80,7 +80,7 @@ theorem findIP_go (T q : String) (fs : List FieldSpec) (aOf : String → List (S
 theorem findIP_q (T q : String) (fs : List FieldSpec) (ids : List String) (aOf : String → List (String × J)) :
     findIP [q] [QLown T q fs] (respA q ids aOf) [] = .ok (pointsFrom q 0 ids) := by
   have hfs : findSelection q [QLown T q fs] = some (QLown T q fs) := by
-    simp [findSelection, findSelectionSel, QLown]
+    exact findSelection_head q q [] [] _ [] _ [] q (by simp)
   rw [findIP, hfs]
   have hl : J.lookup q (respA q ids aOf) = some (.arr (ids.map (elemA aOf))) := by simp [respA, J.lookup]
   rw [hl]
